@@ -438,6 +438,197 @@ impl<'a> ArgSrc for RandArgs<'a> {
     }
 }
 
+// ---------------------------------------------------------------- replaying recorded arguments
+
+/// An argument source that hands out a recorded trace again (to repeat a call with identical arguments).
+pub struct ReplayArgs {
+    items: std::collections::VecDeque<Arg>,
+    pub trace: Vec<Arg>,
+    pub ok: bool,
+}
+
+impl ReplayArgs {
+    pub fn new(trace: &[Arg]) -> ReplayArgs {
+        ReplayArgs { items: trace.iter().cloned().collect(), trace: trace.to_vec(), ok: true }
+    }
+    fn take(&mut self) -> Option<ArgV> {
+        match self.items.pop_front() {
+            Some(a) => Some(a.v),
+            None => {
+                self.ok = false;
+                None
+            }
+        }
+    }
+}
+
+impl ArgSrc for ReplayArgs {
+    fn word(&mut self, _p: &str) -> u32 {
+        match self.take() {
+            Some(ArgV::Word(v)) => v,
+            _ => {
+                self.ok = false;
+                0
+            }
+        }
+    }
+    fn opt_word(&mut self, _p: &str) -> Option<u32> {
+        match self.take() {
+            Some(ArgV::OptWord(v)) => v,
+            _ => {
+                self.ok = false;
+                None
+            }
+        }
+    }
+    fn insert_point(&mut self) -> InsertPoint {
+        match self.take() {
+            Some(ArgV::InsertPoint(s)) => {
+                let num = |s: &str| s.trim_end_matches(')').split('(').nth(1).and_then(|n| n.parse::<usize>().ok()).unwrap_or(0);
+                if s == "Begin" {
+                    InsertPoint::Begin
+                } else if s.starts_with("FromBegin") {
+                    InsertPoint::FromBegin(num(&s))
+                } else if s.starts_with("FromEnd") {
+                    InsertPoint::FromEnd(num(&s))
+                } else {
+                    InsertPoint::End
+                }
+            }
+            _ => {
+                self.ok = false;
+                InsertPoint::End
+            }
+        }
+    }
+    fn lit32(&mut self, _p: &str) -> u32 {
+        match self.take() {
+            Some(ArgV::Lit32(v)) => v,
+            _ => {
+                self.ok = false;
+                0
+            }
+        }
+    }
+    fn lit64(&mut self, _p: &str) -> u64 {
+        match self.take() {
+            Some(ArgV::Lit64(v)) => v,
+            _ => {
+                self.ok = false;
+                0
+            }
+        }
+    }
+    fn byte(&mut self, _p: &str) -> u8 {
+        match self.take() {
+            Some(ArgV::Byte(v)) => v,
+            _ => {
+                self.ok = false;
+                0
+            }
+        }
+    }
+    fn operands(&mut self, _p: &str) -> Vec<Operand> {
+        match self.take() {
+            Some(ArgV::Operands(v)) => v,
+            _ => {
+                self.ok = false;
+                vec![]
+            }
+        }
+    }
+    fn words(&mut self, _p: &str) -> Vec<u32> {
+        match self.take() {
+            Some(ArgV::Words(v)) => v,
+            _ => {
+                self.ok = false;
+                vec![]
+            }
+        }
+    }
+    fn lits(&mut self, _p: &str) -> Vec<u32> {
+        match self.take() {
+            Some(ArgV::Lits(v)) => v,
+            _ => {
+                self.ok = false;
+                vec![]
+            }
+        }
+    }
+    fn string(&mut self, _p: &str) -> String {
+        match self.take() {
+            Some(ArgV::Str(v)) => v,
+            _ => {
+                self.ok = false;
+                String::new()
+            }
+        }
+    }
+    fn opt_string(&mut self, _p: &str) -> Option<String> {
+        match self.take() {
+            Some(ArgV::OptStr(v)) => v,
+            _ => {
+                self.ok = false;
+                None
+            }
+        }
+    }
+    fn pairs_operand_word(&mut self, _p: &str) -> Vec<(Operand, u32)> {
+        match self.take() {
+            Some(ArgV::PairsOperandWord(v)) => v,
+            _ => {
+                self.ok = false;
+                vec![]
+            }
+        }
+    }
+    fn pairs_word_lit(&mut self, _p: &str) -> Vec<(u32, u32)> {
+        match self.take() {
+            Some(ArgV::PairsWordLit(v)) => v,
+            _ => {
+                self.ok = false;
+                vec![]
+            }
+        }
+    }
+    fn pairs_word_word(&mut self, _p: &str) -> Vec<(u32, u32)> {
+        match self.take() {
+            Some(ArgV::PairsWordWord(v)) => v,
+            _ => {
+                self.ok = false;
+                vec![]
+            }
+        }
+    }
+    fn op(&mut self, _p: &str) -> rspirv::spirv::Op {
+        match self.take() {
+            Some(ArgV::Op(v)) => decls::op_by_value(v).unwrap_or(rspirv::spirv::Op::Nop),
+            _ => {
+                self.ok = false;
+                rspirv::spirv::Op::Nop
+            }
+        }
+    }
+    fn enum_val(&mut self, _p: &str, _ty: &str, _pf: bool) -> u32 {
+        match self.take() {
+            Some(ArgV::Enum(_, v)) => v,
+            _ => {
+                self.ok = false;
+                0
+            }
+        }
+    }
+    fn opt_enum_val(&mut self, _p: &str, _ty: &str, _pf: bool) -> Option<u32> {
+        match self.take() {
+            Some(ArgV::OptEnum(_, v)) => v,
+            _ => {
+                self.ok = false;
+                None
+            }
+        }
+    }
+}
+
 // ---------------------------------------------------------------- per-call oracle
 
 #[derive(Clone, Debug, PartialEq)]
